@@ -4,6 +4,7 @@ import TF.Model.Poly
 import TF.Model.PolyMul
 import TF.Model.PolyNtt
 import TF.Gen.Consts
+import TF.Gen.PolyLoops
 /-!
 driver handler for the family `poly` (C07): multiplication strategies of `Polynomial<FF>`.
 
@@ -50,7 +51,54 @@ def okXO : Option (List X3) → String
 def mulBX (a : Nat) (b : X3) : X3 := xscale a b
 def mulXB (a : X3) (b : Nat) : X3 := xscale b a
 
-def poly : Handler
+-- BEGIN BT6: the definitions regenerated from polynomial.rs (TF/Gen/PolyLoops.lean) evaluated next to the hand model
+/-- reply of the REGENERATED function (rendered like the hand model's reply); `none`: no regenerated counterpart or operands
+    too long for the list-indexed loops -/
+def genPoly : Handler
+  | "naive", [.sym "b", a, b] => do
+      let a ← bPoly? a; let b ← bPoly? b; if a.length > 96 || b.length > 96 then none else
+      pure (okBO (Gen.Poly.naive_multiply FB FB FB FB.mul a b))
+  | "mul", [.sym "b", a, b] => do
+      let a ← bPoly? a; let b ← bPoly? b; if a.length > 96 || b.length > 96 then none else
+      pure (okBO (Gen.Poly.mul FB FB FB FB.mul a b))
+  | "multiply", [.sym "b", a, b] => do
+      let a ← bPoly? a; let b ← bPoly? b; if a.length > 96 || b.length > 96 then none else
+      pure (okBO (Gen.Poly.multiply FB FB FB FB.mul (fastMultiply FB TB) a b))
+  | "fast", [.sym "b", a, b] => do
+      let a ← bPoly? a; let b ← bPoly? b; pure (okBO (Gen.Poly.fast_multiply FB FB FB FB.mul TB.ntt TB.ntt TB.intt a b))
+  | "ssq", [.sym "b", a] => do let a ← bPoly? a; if a.length > 96 then none else pure (okBO (Gen.Poly.slow_square FB a))
+  | "sq", [.sym "b", a] => do
+      let a ← bPoly? a; if a.length > 96 then none else pure (okBO (Gen.Poly.square FB (fastSquare FB TB) a))
+  | "fsq", [.sym "b", a] => do let a ← bPoly? a; pure (okBO (Gen.Poly.fast_square FB TB.ntt TB.intt a))
+  | "smul", [.sym "b", a, .nat s] => do let a ← bPoly? a; pure (okB (Gen.Poly.scalar_mul FB FB.mul a (s % P)))
+  | "smulmut", [.sym "b", a, .nat s] => do let a ← bPoly? a; pure (okB (Gen.Poly.scalar_mul_mut FB FB.mul a (s % P)))
+  | "scale", [.sym "b", a, .nat s] => do let a ← bPoly? a; pure (okB (Gen.Poly.scale FB FB.one FB.mul FB.mul a (s % P)))
+  | "shift", [.sym "b", a, .nat n] => do
+      let a ← bPoly? a; if n > 100000 then none else pure (okB (Gen.Poly.shift_coefficients FB a n))
+  | "naive", [.sym "x", a, b] => do
+      let a ← xPoly? a; let b ← xPoly? b; if a.length > 64 || b.length > 64 then none else
+      pure (okXO (Gen.Poly.naive_multiply FX FX FX FX.mul a b))
+  | "multiply", [.sym "x", a, b] => do
+      let a ← xPoly? a; let b ← xPoly? b; if a.length > 64 || b.length > 64 then none else
+      pure (okXO (Gen.Poly.multiply FX FX FX FX.mul (fastMultiply FX TX) a b))
+  | "fast", [.sym "x", a, b] => do
+      let a ← xPoly? a; let b ← xPoly? b; pure (okXO (Gen.Poly.fast_multiply FX FX FX FX.mul TX.ntt TX.ntt TX.intt a b))
+  | "ssq", [.sym "x", a] => do let a ← xPoly? a; if a.length > 64 then none else pure (okXO (Gen.Poly.slow_square FX a))
+  | "smul", [.sym "x", a, s] => do let a ← xPoly? a; let s ← xElem? s; pure (okX (Gen.Poly.scalar_mul FX FX.mul a s))
+  | "scale", [.sym "x", a, s] => do let a ← xPoly? a; let s ← xElem? s; pure (okX (Gen.Poly.scale FX FX.one FX.mul FX.mul a s))
+  | "naive", [.sym "bx", a, b] => do
+      let a ← bPoly? a; let b ← xPoly? b; if a.length > 64 || b.length > 64 then none else
+      pure (okXO (Gen.Poly.naive_multiply FB FX FX mulBX a b))
+  | "fast", [.sym "bx", a, b] => do
+      let a ← bPoly? a; let b ← xPoly? b; pure (okXO (Gen.Poly.fast_multiply FB FX FX mulBX TB.ntt TX.ntt TX.intt a b))
+  | "smul", [.sym "bx", a, s] => do let a ← bPoly? a; let s ← xElem? s; pure (okX (Gen.Poly.scalar_mul FB mulBX a s))
+  | "scale", [.sym "bx", a, s] => do
+      let a ← bPoly? a; let s ← xElem? s; pure (okX (Gen.Poly.scale FB xone xmul mulBX a s))
+  | "scale", [.sym "xb", a, .nat s] => do
+      let a ← xPoly? a; pure (okX (Gen.Poly.scale FX 1 fmul mulXB a (s % P)))
+  | _, _ => none
+
+def polyModel : Handler
   -- same field, base
   | "naive", [.sym "b", a, b] => do let a ← bPoly? a; let b ← bPoly? b; pure (okB (naiveMultiply FB a b))
   | "mul", [.sym "b", a, b] => do let a ← bPoly? a; let b ← bPoly? b; pure (okB (mul FB a b))
@@ -117,5 +165,13 @@ def poly : Handler
   | "scale", [.sym "xb", a, .nat s] => do
       let a ← xPoly? a; pure (okX (scaleG 1 fmul mulXB a (s % P)))
   | _, _ => none
+
+/-- the hand model's reply, or `GEN-MISMATCH` when the regenerated definition answers differently -/
+def poly : Handler := fun op args =>
+  (polyModel op args).map fun model =>
+    match genPoly op args with
+    | some g => if g == model then model else s!"GEN-MISMATCH {op} gen={g} model={model}"
+    | none => model
+-- END BT6
 
 end TF.Drv.Poly
